@@ -92,7 +92,9 @@ func c06Placements(W, copies int) [][]c06Place {
 	return out
 }
 
-var c06Proj = canon.LedgerNZ.Without("pn_history_txbatch", "blockorder")
+// blockorder of other entries and the key MR of the entry block legitimately
+// differ when extra copies are present in a block: neither is ledger state.
+var c06Proj = canon.LedgerNZ.Without("pn_history_txbatch", "blockorder").Without("pn_transaction_batch_holding", "eblock_keymr")
 
 func runC06(c *core.Ctx, r *core.Result) {
 	W := 4
